@@ -1,37 +1,41 @@
 /-
   C19 — device and channel descriptions are read-only apart from enable and divider.
-  STATEMENTS (to be proved; file moves to NxsModel/Props/C19.lean when no `sorry` is left).
+  Property theorems only (helper lemmas in Lemmas/).
   A record is its instance `__dict__` (Record.Dict); construction replays the generated
   `__init__`/`__post_init__` assignment orders; `args` are the constructor arguments.
 -/
 import NxsModel.Record
+import NxsModel.Lemmas.Record
 namespace Nxs.C19
 open Nxs Nxs.Record
 
 /-- construction always succeeds and ends with the record sealed -/
 theorem chan_constructs (args : String → Int) (ty : Nat) :
-    ∃ d, mkChan args ty = .ok d ∧ initDone d = true := sorry
+    ∃ d, mkChan args ty = .ok d ∧ initDone d = true := Record.chan_constructs args ty
 
 theorem dev_constructs (args : String → Int) (flags : Nat) :
-    ∃ d, mkDev args flags = .ok d ∧ initDone d = true := sorry
+    ∃ d, mkDev args flags = .ok d ∧ initDone d = true := Record.dev_constructs args flags
 
 /-- every attribute other than `en` and `div` — identifying fields, derived attributes, the init
     marker, and names that are not fields at all — raises TypeError (and, `Except` returning no new
     state, leaves the record unchanged) -/
 theorem chan_readonly (args : String → Int) (ty : Nat) (d : Dict) (name : String) (v : Int)
     (hd : mkChan args ty = .ok d) (hn : name ≠ "en" ∧ name ≠ "div") :
-    setattr Gen.Record.chanAllow d name v = .error .typeError := sorry
+    setattr Gen.Record.chanAllow d name v = .error .typeError :=
+  Record.chan_readonly args ty d name v hd hn
 
 /-- `en` and `div` remain assignable, and assigning them changes nothing else -/
 theorem chan_en_div_assignable (args : String → Int) (ty : Nat) (d : Dict) (name : String) (v : Int)
     (hd : mkChan args ty = .ok d) (hn : name = "en" ∨ name = "div") :
     ∃ d', setattr Gen.Record.chanAllow d name v = .ok d' ∧ d'.get? name = some v ∧
-      ∀ k, k ≠ name → d'.get? k = d.get? k := sorry
+      ∀ k, k ≠ name → d'.get? k = d.get? k :=
+  Record.chan_en_div_assignable args ty d name v hd hn
 
 /-- every device-level attribute is read-only -/
 theorem dev_readonly (args : String → Int) (flags : Nat) (d : Dict) (name : String) (v : Int)
     (hd : mkDev args flags = .ok d) :
-    setattr Gen.Record.devAllow d name v = .error .typeError := sorry
+    setattr Gen.Record.devAllow d name v = .error .typeError :=
+  Record.dev_readonly args flags d name v hd
 
 /-- the constructed channel record holds the constructor arguments and the derived attributes -/
 theorem chan_fields (args : String → Int) (ty : Nat) (d : Dict) (hd : mkChan args ty = .ok d) :
@@ -43,13 +47,13 @@ theorem chan_fields (args : String → Int) (ty : Nat) (d : Dict) (hd : mkChan a
     d.get? "critical" = some (b2i (Info.criticalOf ty)) ∧
     d.get? "type_res" = some ((Info.typeResOf ty : Nat) : Int) ∧
     d.get? "is_valid" = some (b2i (Info.isValidOf ty)) ∧
-    d.get? "is_numerical" = some (b2i (Info.isNumericalOf ty)) := sorry
+    d.get? "is_numerical" = some (b2i (Info.isNumericalOf ty)) := Record.chan_fields args ty d hd
 
 theorem dev_fields (args : String → Int) (flags : Nat) (d : Dict) (hd : mkDev args flags = .ok d) :
     d.get? "chmax" = some (args "chmax") ∧ d.get? "flags" = some (flags : Int) ∧
     d.get? "rxpadding" = some (args "rxpadding") ∧
     d.get? "div_supported" = some (b2i (Info.divSupported flags)) ∧
-    d.get? "ack_supported" = some (b2i (Info.ackSupported flags)) := sorry
+    d.get? "ack_supported" = some (b2i (Info.ackSupported flags)) := Record.dev_fields args flags d hd
 
 example : (mkChan (fun _ => 7) 0x8a).bind (fun d => setattr Gen.Record.chanAllow d "chan" 9) = .error .typeError := by
   decide +kernel
